@@ -140,23 +140,26 @@ theorem closed_bulkOne (s : TState D) (id : Nat) (h : P s.l1a) :
     · exact h
   · exact h
 
-theorem closed_bulkFold (ids : List Nat)
-    (acc : TState D × List (Option (Vec × Meta × Tier))) (h : P acc.1.l1a) :
-    P (ids.foldl (fun (acc : TState D × List (Option (Vec × Meta × Tier))) id =>
-      let (st, r) := bulkOne digest acc.1 id
-      (st, acc.2 ++ [r])) acc).1.l1a := by
-  induction ids generalizing acc with
+theorem closed_bulkPass (ids : List Nat) (s : TState D) (h : P s.l1a) :
+    P (bulkPass digest s ids).1.l1a := by
+  induction ids generalizing s with
   | nil => exact h
   | cons i rest ih =>
-    rw [List.foldl_cons]
-    apply ih
-    exact closed_bulkOne digest hc acc.1 i h
+    unfold bulkPass
+    have h1 := closed_bulkOne digest hc s i h
+    generalize bulkOne digest s i = r at h1 ⊢
+    obtain ⟨s1, o⟩ := r
+    simp only at h1 ⊢
+    have h2 := ih s1 h1
+    generalize bulkPass digest s1 rest = r2 at h2 ⊢
+    obtain ⟨s2, rs⟩ := r2
+    exact h2
 
 theorem closed_bulkQuery (s : TState D) (ids : List Nat) (h : P s.l1a) :
     P (bulkQuery digest s ids).1.l1a := by
   unfold bulkQuery
-  have := closed_bulkFold digest hc ids (s, []) h
-  generalize (ids.foldl _ (s, [])) = r at this ⊢
+  have := closed_bulkPass digest hc ids s h
+  generalize bulkPass digest s ids = r at this ⊢
   obtain ⟨s1, fp⟩ := r
   exact this
 
